@@ -1,7 +1,7 @@
 (* C28 - the tie between the model of walk and the program gotrans regenerates from
    src/remote/utils.go on every run: interpreting the regenerated program IS the model's `finish`. *)
 From Coq Require Import String.
-From PlzV Require Import Base.Harness Model.C28 Proof.C28 Gen.DirWalk.
+From PlzV Require Import Base.Harness Model.C28 Proof.C28 Proof.C28_Conc Proof.C28_Memo Gen.DirWalk.
 
 Section Interp.
   Variable srt : sorter.
@@ -56,3 +56,45 @@ Proof. reflexivity. Qed.
 Lemma gen_sorted_by_code :
   sorted_by_code = [("target.Env keys", true); ("Outputs", true); ("OutputDirectories", false); ("Platform", false)]%string.
 Proof. reflexivity. Qed.
+
+(* ---- follow-up round 2 ----
+   Client.digestMessage, regenerated as a program: each step names the buffer it writes or reads and whether that
+   buffer is shared between goroutines.  The model's machine interprets the regenerated program; these two lemmas
+   break as soon as the serialised bytes are kept anywhere but in a slice the calling goroutine allocated. *)
+Definition to_dstep (g : dgstep) : dstep :=
+  match g with
+  | GMarshal sh _ => DMarshal (if sh then BShared else BLocal)
+  | GHash sh _ => DHash (if sh then BShared else BLocal)
+  end.
+Definition gen_digest_prog : list dstep := map to_dstep digest_message_prog.
+
+Lemma gen_digest_prog_all_local : all_local gen_digest_prog = true.
+Proof. reflexivity. Qed.
+
+Lemma gen_digest_prog_is_local : gen_digest_prog = local_prog.
+Proof. reflexivity. Qed.
+
+(* the projection theorem, for the program the source has *)
+Lemma gen_conc_projection HM jobs sched i :
+  nth_error (snd (conc_run HM gen_digest_prog jobs sched)) i
+  = option_map (fun j => alone HM gen_digest_prog (count_occ Nat.eq_dec sched i) (spawn j)) (nth_error jobs i).
+Proof. exact (conc_run_projection HM gen_digest_prog gen_digest_prog_all_local jobs sched i). Qed.
+
+Lemma gen_conc_action_digest H HC HA srt quote c :
+  forall (ds : list decl) (sched : list nat) (i : nat) (d : decl) (t : thread),
+    nth_error ds i = Some d ->
+    nth_error (snd (conc_run (hm H HC HA) gen_digest_prog (map (decl_job H srt quote c) ds) sched)) i = Some t ->
+    (forall root, option_map snd (build H srt (d_ops d)) = Some root ->
+       exists k, t_done t = firstn k (action_digests (hm H HC HA) root (command_of srt quote c d root) (d_timeout d)
+                                                     (target_platform (d_labels d) (f_plat c))))
+    /\ ((9 <= count_occ Nat.eq_dec sched i)%nat -> forall dg, action_digest H HC HA srt quote c d = Some dg -> last (t_done t) [] = dg).
+Proof. exact (conc_action_digest H HC HA srt quote c gen_digest_prog gen_digest_prog_all_local gen_digest_prog_is_local). Qed.
+
+(* PathHasher.Hash: the store into the memo, regenerated: guarded by err == nil.  memo_history_fresh is stated for
+   the guarded store; it applies to the source only while this holds. *)
+Lemma gen_hash_memo_guarded : hash_memo_store_guarded = true /\ hash_memo_store_cond = "err == nil"%string.
+Proof. split; reflexivity. Qed.
+
+Lemma gen_memo_history_fresh h : forall fs mm, memo_inv fs mm -> repairs_only fs h ->
+  run_hist hash_memo_store_guarded fs mm h = fresh_hist hash_memo_store_guarded fs h.
+Proof. exact (memo_history_fresh h). Qed.
